@@ -626,6 +626,7 @@ func runC18(c *fw.Check) {
 	}
 	c.Sample(map[string]interface{}{"type": "DISPFlag", "set": "DISPFlagLocalToUnit|DISPFlagDefinition|DISPFlagDeleted", "oracle": "value read back from the re-parsed DISubprogram equals the set"})
 	c18sideBySide(c)
+	c18attrLists(c)
 	c18aliasing(c)
 }
 
@@ -670,6 +671,13 @@ func c18roundtripSet(c *fw.Check, et EnumType, fam c18family, v uint64) {
 }
 
 func replayC18(c *fw.Check, path string) {
+	var lc c18listCase
+	loadReplay(path, &lc)
+	if lc.Placement != "" {
+		fmt.Printf("replay attribute list %s: %s %s\n%s\n", lc.Placement, lc.First, lc.Second, lc.Text)
+		c18attrLists(c)
+		return
+	}
 	var cs c18case
 	loadReplay(path, &cs)
 	for _, et := range EnumTable {
